@@ -30,12 +30,18 @@ pub struct C11 {
 
 /// A valid machine whose bincode encoding has exactly `target` bytes (the documented limit and its
 /// neighbours): many states with random parameters, then filler states of 16 / 19 / 22 / 27 bytes.
-fn machine_of_exact_size(r: &mut Xo, target: u64) -> Option<Machine> {
+fn machine_of_exact_size(r: &mut Xo, target: u64, compressible: bool) -> Option<Machine> {
     use enum_map::enum_map;
     use maybenot::action::{Action, Timer};
     use maybenot::event::Event;
     use maybenot::state::{State, Trans};
-    let mut m = big_machine(r, 1200);
+    // the base decides how well the encoding compresses: 1200 states with random parameters, or a
+    // single empty state (then the whole machine is repetition and compresses about 1000:1)
+    let mut m = if compressible {
+        Machine::new(0, 0.0, 0, 0.0, vec![State::new(enum_map! { _ => vec![] }), State::new(enum_map! { _ => vec![] })]).ok()?
+    } else {
+        big_machine(r, 1200)
+    };
     let filler = |size: u64| -> State {
         match size {
             16 => State::new(enum_map! { _ => vec![] }),
@@ -487,17 +493,48 @@ impl Prop for C11 {
         // machines at the documented size limit: exactly 1 MiB and one byte less (once per run)
         if !self.boundary_done && (cx.shard == 2 % cx.nshards) {
             self.boundary_done = true;
-            for target in [MIB as u64, MIB as u64 - 1, MIB as u64 - 2] {
-                match machine_of_exact_size(&mut r, target) {
+            for (target, compressible) in [
+                (MIB as u64, false),
+                (MIB as u64 - 1, false),
+                (MIB as u64 - 2, false),
+                (MIB as u64, true),
+                (MIB as u64 - 1, true),
+                (900_000, true),
+                (500_000, true),
+                (100_000, true),
+            ] {
+                match machine_of_exact_size(&mut r, target, compressible) {
                     Some(m) => {
                         out.evaluations += 1;
-                        out.bump("round_trips_at_the_size_limit");
+                        if std::env::var("VH_DEBUG").is_ok() {
+                            eprintln!("exact-size machine: target {target} compressible {compressible} states {} string {} B", m.states.len(), m.serialize().len());
+                        }
+                        out.bump(if compressible { "round_trips_of_highly_compressible_machines" } else { "round_trips_at_the_size_limit" });
+                        if target >= MIB as u64 - 2 && compressible {
+                            out.bump("round_trips_at_the_size_limit");
+                        }
                         if let Err((sig, msg)) = round_trip(&mut r, &m, out) {
                             out.violation(sig, format!("machine with an encoding of exactly {target} bytes (limit {MIB}): {msg}"), json!({"states": m.states.len(), "bincode_bytes": target}));
                             return;
                         }
                     }
                     None => out.bump("size_limit_machines_not_constructed"),
+                }
+            }
+        }
+        // maximally compressible valid machines (tens of thousands of identical empty states): the
+        // encoding approaches deflate's maximal expansion ratio of about 1030:1
+        if cx.shard == 3 % cx.nshards && cx.case < 4 * cx.nshards {
+            use enum_map::enum_map;
+            let n = [40_000usize, 58_000, 62_000, 65_534][(cx.case / cx.nshards) as usize % 4];
+            let states: Vec<maybenot::state::State> = (0..n).map(|_| maybenot::state::State::new(enum_map! { _ => vec![] })).collect();
+            if let Ok(m) = Machine::new(0, 0.0, 0, 0.0, states) {
+                out.evaluations += 1;
+                out.bump("round_trips_of_highly_compressible_machines");
+                out.max("compression_ratio_x10", bincode_size(&m) * 10 / ((m.serialize().len() as u64 - 2) * 3 / 4).max(1));
+                if let Err((sig, msg)) = round_trip(&mut r, &m, out) {
+                    out.violation(sig, format!("machine of {n} identical empty states: {msg}"), json!({"states": n}));
+                    return;
                 }
             }
         }
